@@ -113,6 +113,52 @@ def c16_ledger():
     return viol, {"kind": "native replay (testing, not proof)", "inputs": len(paths), "outcomes": {os.path.basename(r["file"]): r["outcome"] for r in recs}}
 
 
+def c16_mutants():
+    """C16 stand-in (TESTING): every single-edit mutant (token runs deleted inside attributes, attributes deleted, instruction names
+    swapped) of 24 hand-written inputs and of every recorded input is expanded; a panic is a violation with that input - unless the
+    input is listed in findings/c16_mutant_baseline.json (inputs that panic on the tree the baseline was recorded on: known findings,
+    each identified by its exact text; the file is written by `bin/snapshot --mutants`, never at check time)."""
+    import glob
+    import hashlib
+    import json
+    import os
+    import subprocess
+    verif = os.path.dirname(os.path.dirname(os.path.abspath(__file__)))
+    recs, err = replay_inputs([])
+    exe = _exe("mutants")
+    if recs is None or not os.path.exists(exe):
+        return [], {"kind": "native mutation corpus (testing, not proof)", "skipped": err or "binary missing"}, []
+    paths = sorted(glob.glob(os.path.join(verif, "findings", "inputs", "*.rs")))
+    p = subprocess.run([exe] + paths, capture_output=True, text=True, timeout=900)
+    lines = p.stdout.strip().split("\n")
+    head = json.loads(lines[0]) if lines and lines[0].startswith("{") else {"cases": 0, "failures": -1}
+    if head["failures"] < 0 or head["cases"] == 0:
+        return [], {"kind": "native mutation corpus (testing, not proof)", "skipped": "no report (crashed?)"}, []
+    try:
+        base = json.load(open(os.path.join(verif, "findings", "c16_mutant_baseline.json")))["inputs"]
+    except Exception:
+        base = {}
+    viol, known_by_msg = [], {}
+    for l in lines[1:]:
+        if not l.startswith("PANIC\t"):
+            continue
+        _, text, msg = (l.split("\t") + ["", ""])[:3]
+        if text in base:
+            known_by_msg[msg] = known_by_msg.get(msg, 0) + 1
+            continue
+        if len(viol) < 5:
+            h = hashlib.sha1(text.encode()).hexdigest()[:10]
+            viol.append({"obligation": "no-panic@mutant:" + h, "fn": None, "props": ["C16"],
+                         "message": "the derive panicked on an input it does not reject: " + msg[:160],
+                         "failing_input": {"engine": "native replay of the real o2o_impl::expand::derive", "input": text, "panic_message": msg},
+                         "rendered": msg, "where": [], "unit": "replay"})
+    known_lines = ["%d recorded single-edit mutant inputs still panic with `%s` (findings/c16_mutant_baseline.json lists each input)" % (n, m) for m, n in sorted(known_by_msg.items())]
+    rep = {"kind": "native mutation corpus (testing, not proof)", "seeds": head.get("seeds"), "inputs": head["cases"], "panics": head["failures"],
+           "panics_listed_in_baseline": sum(known_by_msg.values()), "new_panics": head["failures"] - sum(known_by_msg.values()),
+           "bound": "24 hand-written inputs + every recorded input; all mutants with one run of 1..3 token trees deleted inside an attribute (any depth), one attribute deleted, or one instruction name replaced by another of the 24"}
+    return viol, rep, known_lines
+
+
 def c17_ledger():
     """every recorded input (findings/inputs/*.rs) that the derive accepts must expand to a sequence of Rust items.
     TESTING, not proof; one obligation per input, so a known finding names exactly one input."""
@@ -363,7 +409,8 @@ def _run(prop, tier):
         return {"violations": v, "report": {"walk_conformance": rep}}
     if prop == "C16":
         v, rep = c16_ledger()
-        return {"violations": v, "report": {"ledger_inputs": rep}}
+        v2, rep2, kl = c16_mutants()
+        return {"violations": v + v2, "report": {"ledger_inputs": rep, "mutation_corpus": rep2}, "known_lines": kl}
     if prop == "C20":
         v, rep = c20_alphabet()
         return {"violations": v, "report": {"template_alphabet": rep}}
